@@ -9,14 +9,14 @@ from ..tlaparse import parse_trace_file
 from ..tlc import account, run_tlc
 
 INVS = ['ReturnsCompleted', 'QuiescentComplete', 'GetNeverComputes', 'MutualExclusion', 'NoNeedlessRecompute',
-        'GetFindsStable']
+        'GetFindsStable', 'FailStoresNothing', 'EntrySurvives']
 
 
-def mc(ncallers, ops=('get', 'goc', 'force')):
+def mc(ncallers, ops=('get', 'goc', 'force'), fail=True):
     mod = (f'---- MODULE MCCache ----\nEXTENDS Cache\nc_Callers == 1..{ncallers}\n'
-           f'c_Ops == {{{", ".join(chr(34) + o + chr(34) for o in ops)}}}\nc_Init == {{TRUE, FALSE}}\n'
+           f'c_Ops == {{{", ".join(chr(34) + o + chr(34) for o in ops)}}}\nc_Init == {{TRUE, FALSE}}\nc_Fail == {{{"TRUE, FALSE" if fail else "FALSE"}}}\n'
            'FairSpec == Spec /\\ \\A c \\in Callers : WF_vars(caller(c))\n====\n')
-    cfg = ('CONSTANTS\n  Callers <- c_Callers\n  OpChoices <- c_Ops\n  InitPresent <- c_Init\n  Emit = FALSE\n'
+    cfg = ('CONSTANTS\n  Callers <- c_Callers\n  OpChoices <- c_Ops\n  InitPresent <- c_Init\n  FailChoices <- c_Fail\n  Emit = FALSE\n'
            'SPECIFICATION Spec\n')
     return mod, cfg
 
@@ -43,6 +43,7 @@ def behaviours(ctx, ncallers, num, seed):
                 raise MachineryError('a step of the Cache model moved several callers')
             steps.append((int(moved[0]), pa[moved[0]]))
         behs.append({'steps': steps, 'ops': {int(k): v for k, v in _fn(states[0]['op']).items()},
+                     'fails': sorted(int(k) for k, v in _fn(states[0]['fails']).items() if v),
                      'present': bool(states[0]['present']), 'final': states[-1]})
     ctx.transitions += sum(len(b['steps']) for b in behs)
     ctx.tlc_runs.append({'run': f'Cache simulate {ncallers} callers num={num}', 'behaviours': len(behs),
@@ -67,7 +68,8 @@ def _run_one(job):
 
     d = scratch(f'c15-{os.getpid()}') / f'b{idx}'
     try:
-        out = run_forked(cache_sched.execute, beh['steps'], beh['ops'], beh['present'], str(d), timeout=40)
+        out = run_forked(cache_sched.execute, beh['steps'], beh['ops'], beh['present'], str(d), None, 'the key', None, 'json',
+                         tuple(beh.get('fails', ())), timeout=40)
     except ChildCrashed:
         out = _hung(beh['ops'])
     finally:
@@ -77,19 +79,21 @@ def _run_one(job):
 
 def _hung(ops):
     """the controlled execution did not terminate: every caller counts as not returned"""
-    return dict(results={}, file=None, drift=['execution did not terminate'], log=[], computes=[], hung=sorted(ops),
+    return dict(results={}, file=None, drift=['execution did not terminate'], log=[], computes=[], attempted=[], hung=sorted(ops),
                 facts={c: {'complete_at_start': None, 'disturbed': True, 'computed': False} for c in ops})
 
 
 def _run_random(job):
-    idx, ops, present, seed, kind = job
+    idx, ops, present, seed, kind = job[:5]
+    fails = job[5] if len(job) > 5 else ()
     import random
 
     from .. import cache_sched
 
     d = scratch(f'c15-{os.getpid()}') / f'r{idx}'
     try:
-        out = run_forked(cache_sched.execute, None, ops, present, str(d), None, 'the key', random.Random(seed), kind, timeout=40)
+        out = run_forked(cache_sched.execute, None, ops, present, str(d), None, 'the key', random.Random(seed), kind, fails,
+                         timeout=40)
     except ChildCrashed:
         out = _hung(ops)
     finally:
@@ -109,14 +113,23 @@ def judge(beh, out):
     sched = ' '.join(f'{c}:{l}' for c, l in beh['steps'])
     if out['hung']:
         bad.append(('hung', f'callers {out["hung"]} never returned (ops {ops}) under schedule {sched}'))
+    fails = set(beh.get('fails', ()))
     for c, r in sorted(out['results'].items()):
-        if r[0] == 'exc':
+        if r[0] == 'failed':
+            if c not in fails or c not in out.get('attempted', []):
+                bad.append(('call-failed', f'caller {c} ({ops[c]}) failed although its computation does not, schedule {sched}'))
+        elif c in fails and c in out.get('attempted', []):
+            bad.append(('failure-swallowed', f'caller {c} ({ops[c]}): its computation raised but the call returned {r}'))
+        elif r[0] == 'exc':
             bad.append(('call-failed', f'caller {c} ({ops[c]}) failed with {r[1]} under schedule {sched}'))
         elif r[0] == 'noval' and ops[c] != 'get':
             bad.append(('noval', f'caller {c} ({ops[c]}) returned NO_VALUE'))
         elif r[0] == 'val' and r[1] not in allowed:
             bad.append(('torn-or-foreign-value', f'caller {c} ({ops[c]}) returned {str(r[1])[:80]!r}, not a value of a '
                                                   f'completed computation, under schedule {sched}'))
+    if out['file'] is None and done and not out['hung']:
+        bad.append(('entry-lost', f'at quiescence no entry is stored although the computations of {sorted(done)} completed '
+                                  f'(callers {sorted(fails)} failed) under schedule {sched}'))
     if out['file'] is not None and kind != 'json':
         if out.get('final_ok') is False:
             bad.append(('final-file', f'[{kind}] at quiescence the stored entry is {out["file"]} - not a completed value, '
@@ -129,13 +142,13 @@ def judge(beh, out):
         except ValueError:
             bad.append(('final-file', f'at quiescence the stored entry is not a complete document: {out["file"][:80]!r} '
                                       f'under schedule {sched}'))
-    for c in out['computes']:
+    for c in out.get('attempted', out['computes']):
         if ops[c] == 'get':
             bad.append(('get-computed', f'caller {c} (get) ran the computer'))
     # needless recompute, in the reading of DESIGN.md section 8, using the facts TLC recorded for this behaviour
     if beh.get('final') is None:
         # free exploration: the facts were gathered by the scheduler itself
-        for c in out['computes']:
+        for c in out.get('attempted', out['computes']):
             f = out['facts'][c]
             if ops[c] == 'goc' and f['complete_at_start'] and not f['disturbed']:
                 bad.append(('needless-recompute', f'caller {c} (goc) recomputed although a complete entry was stored '
@@ -144,13 +157,13 @@ def judge(beh, out):
     fin = beh['final']
     cas, dist = _fn(fin['completeAtStart']), _fn(fin['disturbed'])
     if not out['drift']:
-        for c in out['computes']:
+        for c in out.get('attempted', out['computes']):
             if ops[c] == 'goc' and cas[str(c)] and not dist[str(c)]:
                 bad.append(('needless-recompute', f'caller {c} (goc) recomputed although a complete entry was stored '
                                                   f'throughout its execution, schedule {sched}'))
         exp_comp = sorted(int(c) for c, v in _fn(fin['didCompute']).items() if v)
-        if sorted(out['computes']) != exp_comp:
-            bad.append(('computes-differ', f'callers {sorted(out["computes"])} computed, the model says {exp_comp}, '
+        if sorted(out.get('attempted', out['computes'])) != exp_comp:
+            bad.append(('computes-differ', f'callers {sorted(out.get("attempted", out["computes"]))} computed, the model says {exp_comp}, '
                                            f'schedule {sched}'))
     return bad
 
@@ -188,15 +201,17 @@ def run(ctx):
         for mi, m in enumerate(mixes):
             for present in (True, False):
                 kind = ('json', 'json', 'numpy', 'df')[(r + mi) % 4]
-                rjobs.append((len(rjobs), m, present, ctx.seed * 100003 + len(rjobs), kind))
+                # every third schedule: the computations of some callers raise
+                fl = tuple(c for c in m if (r + mi + c) % 3 == 0) if r % 3 == 2 else ()
+                rjobs.append((len(rjobs), m, present, ctx.seed * 100003 + len(rjobs), kind, fl))
     rout = pmap(_run_random, rjobs, workers=8)
     ctx.traces += len(rjobs)
     ctx.extra['random_schedules_of_real_yield_points'] = len(rjobs)
     distinct_logs = set()
     for idx, o in rout:
-        _, m, present, _, rkind = rjobs[idx]
+        _, m, present, _, rkind, rfails = rjobs[idx]
         distinct_logs.add(json.dumps(o['log']))
-        b = {'steps': o['log'], 'ops': m, 'present': present, 'final': None}
+        b = {'steps': o['log'], 'ops': m, 'present': present, 'final': None, 'fails': list(rfails)}
         ctx.case(json.dumps([o['log'], m, present]), nontrivial=len(m) > 1)
         for cls, text in judge(b, o):
             ctx.report(f'{cls}', text, detail={'schedule': o['log'], 'ops': m, 'present': present, 'observed': o})
